@@ -368,7 +368,12 @@ func genTarget0(rng *rand.Rand, title, name string, earlier []Entry) string {
 		return join(title, "x")
 	default:
 		if len(earlier) > 0 {
-			return relTo(pick(rng, earlier))
+			e := pick(rng, earlier)
+			if e.T == "dir" && rng.IntN(2) == 0 {
+				// below an earlier directory entry: the directory is examined, not filled
+				return relTo(e) + "/" + pick(rng, []string{"later", "keep", "x/later"})
+			}
+			return relTo(e)
 		}
 		return "x"
 	}
@@ -589,6 +594,9 @@ func genRandCase(rng *rand.Rand, multi bool) Case {
 	c := Case{Prepop: genPrepop(rng), RelWD: rng.IntN(8) == 0, Chain: rng.IntN(8) == 0}
 	title := pick(rng, randTitles)
 	c.Pushes = []Push{genArchive(rng, title, 1+rng.IntN(10))}
+	if rng.IntN(100) < 14 {
+		c.Pushes[0].Entries = genReplacedDir(rng, title)
+	}
 	if multi {
 		if rng.IntN(4) == 0 { // a second planting archive under another name
 			c.Pushes = append(c.Pushes, genArchive(rng, pick(rng, []string{"pkg/d", "pkg2", "pkg/sub2", "sub"}), 1+rng.IntN(4)))
@@ -598,6 +606,77 @@ func genRandCase(rng *rand.Rand, multi bool) Case {
 		}
 	}
 	return c
+}
+
+// genReplacedDir builds the shape "a directory that stays empty, looked at on
+// behalf of OTHER entries (link targets below it, entries beside it), is later
+// replaced by a symlink that is lexically inside but really outside, and then
+// used as a parent": up-link, empty directory, probes, replacing link, writes.
+// Steps are sometimes dropped or reordered and unrelated entries interleaved,
+// so near misses are produced as well.
+func genReplacedDir(rng *rand.Rand, title string) []Entry {
+	t := strings.TrimRight(strings.TrimPrefix(title, "./"), "/")
+	if t == "." {
+		t = ""
+	}
+	sdir := join(t, pick(rng, []string{"s", "d", "x/y"}))
+	up := join(sdir, "up")
+	adir := join(t, pick(rng, []string{"a", "q", "d/q", "e/a"}))
+	// from the directory of adir to the up-link, then out
+	rel, err := filepath.Rel(filepath.Dir(cleanRel(adir)), cleanRel(up))
+	if err != nil {
+		rel = "s/up"
+	}
+	depth := strings.Count(cleanRel(up), "/") // ".." steps that stay lexically inside
+	outs := []string{"outdir", "", "pkg", "victim", "wd-backup", "newdir"}
+	target := join(rel, dots(1+rng.IntN(depth+1)), pick(rng, outs))
+	probeTargets := []string{"later", "x/later", "keep", "."}
+	var es []Entry
+	es = append(es, dir(sdir), sym(up, ".."))
+	if rng.IntN(5) == 0 {
+		es = append(es, dir(filepath.Dir(adir)))
+	}
+	es = append(es, dirm(adir, pick(rng, []string{"", "", "", "0555", "0700"})))
+	for n := rng.IntN(3); n > 0; n-- { // entries that make the extraction look at adir without filling it
+		pn := join(t, pick(rng, []string{"probe", "p2", "s/probe", "e/probe"}))
+		prel, err := filepath.Rel(filepath.Dir(cleanRel(pn)), cleanRel(adir))
+		if err != nil {
+			prel = "a"
+		}
+		switch rng.IntN(4) {
+		case 0:
+			es = append(es, link(pn, join(prel, pick(rng, probeTargets)))) // fails: nothing there yet (near miss)
+		case 1:
+			es = append(es, sym(pn, "$WD/"+join(cleanRel(adir), pick(rng, probeTargets))))
+		default:
+			es = append(es, sym(pn, join(prel, pick(rng, probeTargets))))
+		}
+	}
+	if rng.IntN(8) > 0 {
+		es = append(es, sym(adir, target))
+	}
+	for n := 1 + rng.IntN(2); n > 0; n-- {
+		leaf := join(adir, pick(rng, []string{"keep", "victim.txt", "new", "x/new", "victim", "wd/x"}))
+		if rng.IntN(4) == 0 {
+			es = append(es, dir(leaf))
+		} else {
+			es = append(es, reg(leaf))
+		}
+	}
+	// interleave up to two unrelated entries, occasionally drop one step
+	for n := rng.IntN(3); n > 0; n-- {
+		k := rng.IntN(len(es) + 1)
+		e := genEntry(rng, title, es[:k])
+		es = append(es[:k:k], append([]Entry{e}, es[k:]...)...)
+	}
+	if rng.IntN(6) == 0 && len(es) > 3 {
+		k := rng.IntN(len(es))
+		es = append(es[:k:k], es[k+1:]...)
+	}
+	if len(es) > 12 {
+		es = es[:12]
+	}
+	return es
 }
 
 // ---- structural measures ---------------------------------------------------
